@@ -185,6 +185,7 @@ def run(ctx):
             ctx.disagree("Result.global_bin", {"metric": m, "implementation": got, "model": o, "case": case})
     triples = [(802, i, o) for i, o in zip(model_in, outs)]
     step = max(1, len(triples) // 60)
+    reuse_layer(ctx)
     n, bad = coq_crosscheck("C13", triples[::step][:80])
     ctx.crosschecked = n
     for b in bad:
@@ -193,9 +194,79 @@ def run(ctx):
     ctx.exhaustive = ctx.tier == "thorough"
 
 
+def reuse_layer(ctx):
+    """one evaluator used for several inputs, some of which a requested global metric REFUSES (clDice on a 1-D or 4-D scan, a user
+    handler without an entry for a metric on an empty prediction): what is reported for the next ordinary input must still be every
+    requested global metric, with the value a fresh evaluator reports"""
+    rng = ctx.rng
+    for _ in range(ctx.scale(20, 200)):
+        gm = rng.choice([["clDSC"], ["DSC", "clDSC"], ["clDSC", "IOU"], ["DSC", "IOU", "clDSC", "ASSD"]])
+        it = rng.choice(["matched", "unmatched"])
+        partial = rng.random() < 0.4
+        table = {m: [1, 2, 2, 2] for m in rng.sample(["DSC", "IOU", "ASSD", "RVD"], 2)} if partial else None
+        cfg = {"input": it, "imetrics": ["IOU"], "gmetrics": gm, "table": table, "std": 1}
+        ev = impl.make_evaluator(cfg)
+        odd = []
+        for _k in range(rng.randint(1, 2)):
+            kind = rng.choice(["1d", "4d", "empty_pred"])
+            if kind == "1d":
+                a = np.zeros((9,), np.uint8); a[2:6] = 1
+                b = a.copy(); b[5] = 0
+            elif kind == "4d":
+                a = np.zeros((2, 3, 3, 2), np.uint8); a[0, 0:2, 0:2, 0] = 1
+                b = a.copy()
+            else:
+                a = np.zeros((5, 6), np.uint8); a[1:4, 1:4] = 1
+                b = np.zeros_like(a)
+            odd.append(kind)
+            impl.evaluate(ev, b.copy(), a.copy())              # whatever happens here (a refusal is fine) ...
+        ref = np.zeros((7, 8), np.uint8); ref[1:5, 1:6] = 1
+        pred = np.zeros_like(ref); pred[2:5, 1:5 + rng.randint(0, 2)] = 1
+        got = impl.evaluate(ev, pred.copy(), ref.copy())       # ... must not show here
+        want = impl.evaluate(impl.make_evaluator(cfg), pred.copy(), ref.copy())
+        ctx.count({"reuse": True, "cfg": cfg, "odd": odd}, True)
+        ctx.bump("evaluator reused after refused inputs")
+        case = {"mode": "reuse", "cfg": cfg, "odd": odd, "pred": pred, "ref": ref}
+        if isinstance(got, tuple) != isinstance(want, tuple):
+            ctx.violation("an evaluator that was given a refused input before behaves differently from a fresh one", {**case, "observed": got if isinstance(got, tuple) else "result", "fresh": want if isinstance(want, tuple) else "result"})
+            continue
+        if isinstance(got, tuple):
+            continue
+        g1, g2 = impl.canon_result(got["ungrouped"][0])["globals"], impl.canon_result(want["ungrouped"][0])["globals"]
+        missing = [m for m in gm if m.lower() not in g1]
+        if missing or any(not same(g1.get(k), g2.get(k)) for k in g2):
+            ctx.violation(f"after refused inputs ({odd}) the evaluator reports global metrics {g1} for an ordinary input, a fresh evaluator {g2}"
+                          + (f"; requested but missing: {missing}" if missing else ""), {**case, "observed": g1, "fresh": g2})
+
+
 def replay(path):
     common.serial_pool()
     d = json.loads(open(path).read())
+    if d.get("mode") == "reuse":
+        cfg = d["cfg"]
+        ev = impl.make_evaluator(cfg)
+        for kind in d["odd"]:
+            if kind == "1d":
+                a = np.zeros((9,), np.uint8); a[2:6] = 1
+                b = a.copy(); b[5] = 0
+            elif kind == "4d":
+                a = np.zeros((2, 3, 3, 2), np.uint8); a[0, 0:2, 0:2, 0] = 1
+                b = a.copy()
+            else:
+                a = np.zeros((5, 6), np.uint8); a[1:4, 1:4] = 1
+                b = np.zeros_like(a)
+            print("odd input", kind, "->", "refused" if isinstance(impl.evaluate(ev, b.copy(), a.copy()), tuple) else "evaluated")
+        pred, ref = common.arr_from_json(d["pred"]), common.arr_from_json(d["ref"])
+        got = impl.evaluate(ev, pred.copy(), ref.copy())
+        want = impl.evaluate(impl.make_evaluator(cfg), pred.copy(), ref.copy())
+        g1 = got if isinstance(got, tuple) else impl.canon_result(got["ungrouped"][0])["globals"]
+        g2 = want if isinstance(want, tuple) else impl.canon_result(want["ungrouped"][0])["globals"]
+        print("used evaluator:", g1, "\nfresh evaluator:", g2)
+        bad = (isinstance(got, tuple) != isinstance(want, tuple)) or (not isinstance(got, tuple) and
+                                                                       (any(m.lower() not in g1 for m in cfg["gmetrics"]) or any(not same(g1.get(k), g2.get(k)) for k in g2)))
+        if bad:
+            print("VIOLATION: the evaluator's global metrics depend on what it was given before")
+        return 1 if bad else 0
     pred, ref = common.arr_from_json(d["pred"]), common.arr_from_json(d["ref"])
     cfg = {"input": d["input"], "imetrics": ["IOU"], "gmetrics": d["gmetrics"], "table": None if d.get("default_constructed") else d["table"], "std": 1}
     ev = impl.make_evaluator(cfg)
